@@ -273,3 +273,16 @@ PROP_INFO["C12"] = {
     "outside": ["query / query_only_path / query_with_path and parse-once-vs-parse-each-time: all go through the pest parser (out of reach)", "concurrent use from several threads: Kani models sequential code only", "Send + Sync (a type-system fact, not a solver question)"],
     "level_text": "PARTIAL claim: bounded model checking of repeated evaluation of programmatically built one-segment queries; the string entry points (parser) and the schedule quantifier are outside the technique.",
 }
+
+# ----------------------------------------------------------------------------- C15
+PROPS["C15"] = [
+    H("comparison", "c15_scalar_" + k, funcs=_C04_FUNCS + ["<serde_json::Value as Queryable>::{as_i64,as_f64,as_str,as_bool}", "<Mini as Queryable>"],
+      symbolic=sym, shape="eq / lt in both orders at T = serde_json::Value and at T = Mini on equal scalar content", est=15)
+    for k, sym in (("int_int", "two i64"), ("float_float", "two finite f64"), ("int_float", "I-JSON int, finite f64"), ("bool_null", "bool"),
+                   ("bool_bool", "two bools"), ("str_str", "1-byte and 2-byte UTF-8 scalars"), ("str_int", "1-byte scalar, i64"))
+]
+PROP_INFO["C15"] = {
+    "bounds": "PARTIAL: relational check of the comparison kernels (==, <, >) instantiated at serde_json::Value and at the harness type Mini on equal scalar content of every scalar kind; all other harnesses of this framework run the generic engine at T = Mini, i.e. already at a second Queryable implementation",
+    "outside": ["whole-query relational runs over Value documents: serde_json's recursive drop glue / BTreeMap objects do not go through CBMC (measured: OOM / no verdict)", "<Value as Queryable>::get quote stripping on objects"],
+    "level_text": "PARTIAL claim: bounded model checking of the generic comparison code at two Queryable instantiations with a relational assertion; object access and whole queries over serde_json::Value are outside reach.",
+}
